@@ -205,7 +205,7 @@ func run(c Case) vt.Verdict {
 	if err := ex.Close(); err != nil {
 		return vt.Bad("Close: %v", err)
 	}
-	f := obs.Read(file, obs.Options{})
+	f := obs.Read(file, obs.Options{SelSeeds: []uint64{11, 22, 33, 44}})
 	ps := hist.Compare(ex.M, f, hist.Opts{})
 	if len(ps) > 0 {
 		return vt.Bad("%d problem(s) after reopen, first: %s (spec %+v, sb %d)", len(ps), ps[0], c.D, c.SB)
